@@ -36,6 +36,7 @@ class Tally:
         self.inconclusive: List[Dict[str, Any]] = []
         self.samples: List[Dict[str, Any]] = []
         self.violations: List[Dict[str, Any]] = _VList()
+        self.by_cvc5 = 0                          # queries z3 left undecided and cvc5 decided
         self.kept: List[Dict[str, Any]] = []      # (what, z3 verdict, SMT-LIB text) of decided queries, for the second solver
 
     def cross_check(self) -> Dict[str, Any]:
@@ -87,7 +88,7 @@ class Tally:
         if cross.get("disagree"):
             # one of the two solvers is wrong: nothing this obligation says is believed
             verdict = "solver-disagreement"
-        extra = dict(extra, crosscheck=cross)
+        extra = dict(extra, crosscheck=cross, decided_by_cvc5=self.by_cvc5)
         d = dict(name=name, verdict=verdict, queries_total=self.queries, discharged=self.discharged,
                  solver_s=round(self.solver_s, 3), inconclusive=self.inconclusive[:20], samples=self.samples[:12],
                  violations=list(self.violations[:20]), bound=bound or f"|x| <= {MAXLEN}, code points <= U+2FFFF")
@@ -127,8 +128,41 @@ def check(tally: Tally, constraints, what: str, timeout_ms: int = 20000, x=None)
             v = m.eval(x, model_completion=True)
             return "sat", decode(v.as_string())
         return "sat", m
-    tally.inconclusive.append({"what": what, "reason": s.reason_unknown()})
+    # portfolio: what z3 leaves undecided is put to cvc5 (same SMT-LIB text), in a killable subprocess
+    ans = _cvc5_decide(s.to_smt2(), x)
+    if ans[0] == "unsat":
+        tally.discharged += 1
+        tally.by_cvc5 += 1
+        return "unsat", None
+    if ans[0] == "sat" and x is not None and ans[1] is not None:
+        tally.discharged += 1
+        tally.by_cvc5 += 1
+        return "sat", ans[1]
+    tally.inconclusive.append({"what": what, "reason": s.reason_unknown(), "cvc5": ans[0]})
     return "unknown", None
+
+
+_VAL = re.compile(r'^\(\(\S+ "(.*)"\)\)$', re.S)
+
+
+def _cvc5_decide(text: str, x=None, per_ms: int = 60000):
+    if os.environ.get("VF_Z_FALLBACK", "1") != "1":
+        return ("off", None)
+    q = {"smt2": text}
+    if x is not None:
+        q["model_of"] = str(x)
+    try:
+        p = subprocess.run([sys.executable, "-m", "tplz3.cross"], input=json.dumps({"per_ms": per_ms, "queries": [q]}), capture_output=True, text=True,
+                           timeout=per_ms / 1000.0 + 20, cwd=os.path.dirname(os.path.dirname(os.path.abspath(__file__))))
+        a = json.loads(p.stdout.strip().splitlines()[-1])[0]
+    except Exception as e:
+        return ("error: " + repr(e)[:100], None)
+    if a == "unsat":
+        return ("unsat", None)
+    if a.startswith("sat"):
+        m = _VAL.match(a[4:].strip()) if len(a) > 4 else None
+        return ("sat", decode(m.group(1).replace('""', '"')) if m else None)
+    return (a, None)
 
 
 def X(name="x"):
